@@ -7,10 +7,10 @@
  * Float arithmetic is uninterpreted (same term in code and spec). */
 #include "common.h"
 _Bool nondet_bool(void); int64_t nondet_i64(void); opt_int64_t nondet_opt_i64(void);
-CgroupContext_CgroupData g_data, g_pdata;
+CgroupContext_CgroupData g_data, g_pdata, g_sibdata;
 CgroupContext g_parent; CgroupContext *g_selfp;
 CgroupContext_CgroupData *uptr_CgroupContext_CgroupData__resolve(uptr_CgroupContext_CgroupData p)
-{ __CPROVER_assert(p == 1 || p == 2, "data_ of self or of the parent context"); return p == 1 ? &g_data : &g_pdata; }
+{ __CPROVER_assert(p == 1 || p == 2 || p == 3, "data_ of self, of the parent context or of the sibling being visited"); return p == 1 ? &g_data : (p == 2 ? &g_pdata : &g_sibdata); }
 SystemContext g_sys; ContextParams g_params;
 SystemContext *OomdContext__getSystemContext(OomdContext c) { return &g_sys; }
 ContextParams *OomdContext__getParams(OomdContext c) { return &g_params; }
@@ -43,12 +43,14 @@ _Bool CgroupContext__refresh(CgroupContext *self)
 
 /* ---- the per-tick cache (PROXY macro), on current_usage ---- */
 uint64_t g_computes; opt_int64_t g_computed;
-opt_int64_t CgroupContext__getMemcurrent(CgroupContext *self) { g_computes = g_computes + 1; g_computed = nondet_opt_i64(); return g_computed; }
+opt_int64_t g_sib_cur, g_sib_min, g_sib_low;      /* the statistics of the sibling currently visited by getMemoryProtection */
+#define SIB ((CgroupPath)30)
+opt_int64_t CgroupContext__getMemcurrent(CgroupContext *self) { if (self->cgroup_ == SIB) return g_sib_cur; g_computes = g_computes + 1; g_computed = nondet_opt_i64(); return g_computed; }
 /* the anonymous-namespace helper `proxy(T val, S& field, Error* err)` (ASSUMED as written in the source) */
 void proxy__opt_int64_t_opt_int64_t_CgroupContext_Error__(opt_int64_t val, opt_int64_t *field, CgroupContext_Error *err)
 { *field = val; if (!field->has && err) *err = CgroupContext_Error__INVALID_CGROUP; }
 #define CONTRACT_current_usage \
-  __CPROVER_requires(self->data_ == 1 && ghost_exc == 0) \
+  __CPROVER_requires(self->data_ == 1 && self->cgroup_ != SIB && ghost_exc == 0) \
   __CPROVER_assigns(g_data.current_usage, g_computes, g_computed; err != 0: *err) \
   /* obtained once: a cached value is returned as is and nothing is recomputed */ /*@C15*/ \
   __CPROVER_ensures(__CPROVER_old(g_data.current_usage.has) ? (g_computes == __CPROVER_old(g_computes) && OPT_I64_EQ(g_data.current_usage, __CPROVER_old(g_data.current_usage))) \
@@ -66,8 +68,8 @@ opt_int64_t CgroupContext__average_usage(CgroupContext *s, CgroupContext_Error *
 opt_int64_t CgroupContext__memory_protection(CgroupContext *s, CgroupContext_Error *e) { return s->cgroup_ == (CgroupPath)20 ? g_par_prot : g_acc_prot; }
 opt_int64_t CgroupContext__swap_max(CgroupContext *s, CgroupContext_Error *e) { return g_acc_swap_max; }
 opt_int64_t CgroupContext__swap_usage(CgroupContext *s, CgroupContext_Error *e) { return g_acc_swap_usage; }
-opt_int64_t CgroupContext__memory_min(CgroupContext *s, CgroupContext_Error *e) { return g_acc_min; }
-opt_int64_t CgroupContext__memory_low(CgroupContext *s, CgroupContext_Error *e) { return g_acc_low; }
+opt_int64_t CgroupContext__memory_min(CgroupContext *s, CgroupContext_Error *e) { return s->cgroup_ == SIB ? g_sib_min : g_acc_min; }
+opt_int64_t CgroupContext__memory_low(CgroupContext *s, CgroupContext_Error *e) { return s->cgroup_ == SIB ? g_sib_low : g_acc_low; }
 opt_int64_t CgroupContext__effective_swap_max(CgroupContext *s, CgroupContext_Error *e) { __CPROVER_assert(s == &g_parent, "the parent's value is asked"); return g_par_swap_max_eff; }
 opt_int64_t CgroupContext__effective_swap_free(CgroupContext *s, CgroupContext_Error *e) { __CPROVER_assert(s == &g_parent, "the parent's value is asked"); return g_par_swap_free_eff; }
 opt_double CgroupContext__effective_swap_util_pct(CgroupContext *s, CgroupContext_Error *e) { __CPROVER_assert(s == &g_parent, "the parent's value is asked"); return g_par_swap_util_eff; }
@@ -144,6 +146,7 @@ opt_double CgroupContext__getEffectiveSwapUtilPct(CgroupContext *self, CgroupCon
                    !(__CPROVER_return_value.val < F_DIV_d((double)g_acc_swap_usage.val, (double)g_acc_swap_max.val)))
                 : !__CPROVER_return_value.has)))) /*@C15*/
   __CPROVER_ensures(ghost_exc == 0);
+#define RAWEXP (g_acc_cur.val < (g_acc_min.val < g_acc_low.val ? g_acc_low.val : g_acc_min.val) ? g_acc_cur.val : (g_acc_min.val < g_acc_low.val ? g_acc_low.val : g_acc_min.val))
 int64_t g_raw_expected;   /* R of ctx, fixed by the harness from the accessor values */
 /* R = min(current, max(min, low)) - unavailable if any input is */
 opt_int64_t rawProtection(CgroupContext ctx, CgroupContext_Error *err)
@@ -175,7 +178,6 @@ opt_double CgroupContext__memory_growth(CgroupContext *self, CgroupContext_Error
   HAVOC(g_parent_lookup); HAVOC(g_computes); HAVOC(g_acc_cur); HAVOC(g_acc_avg); HAVOC(g_acc_prot); HAVOC(g_acc_pgscan); HAVOC(g_acc_swap_max); HAVOC(g_acc_swap_usage); \
   HAVOC(g_acc_min); HAVOC(g_acc_low); HAVOC(g_par_swap_max_eff); HAVOC(g_par_swap_free_eff); HAVOC(g_par_prot); HAVOC(g_acc_iocost); HAVOC(g_par_swap_util_eff); HAVOC(ghost_exc); } while (0)
 #define CANARY __CPROVER_assert(0, "canary: contract precondition satisfiable and function exit reachable")
-#define RAWEXP (g_acc_cur.val < (g_acc_min.val < g_acc_low.val ? g_acc_low.val : g_acc_min.val) ? g_acc_cur.val : (g_acc_min.val < g_acc_low.val ? g_acc_low.val : g_acc_min.val))
 /* ---- pgscan counter: an optional memory.stat key (C10: its absence is reported as unavailable, never thrown) ---- */
 #define MEMSTAT ((umap_str_t_int64_t)31)
 _Bool g_ms_ok, g_ms_has_pgscan; int64_t g_ms_pgscan; uint64_t g_ms_n;
@@ -222,6 +224,51 @@ opt_double CgroupContext__getIoCostCumulative(CgroupContext *self, CgroupContext
   __CPROVER_ensures(!HAS(__CPROVER_return_value) || (g_io_visits == g_iostat.val.n && __CPROVER_equal(__CPROVER_return_value.val, g_cost_acc))) /*@C15*/
   __CPROVER_ensures(ghost_exc == 0);
 void h_getIoCostCumulative(void) { CgroupContext *s; CgroupContext_Error *e; HAVOC_CC(); HAVOC(g_iostat); HAVOC(g_io_visits); HAVOC(g_cost_acc); CgroupContext__getIoCostCumulative(s, e); CANARY; }
+/* ---- hierarchically distributed memory protection: P = R * min(1, P(parent) / sum of the siblings' R) ---- */
+#define MIN2(a, b) ((a) < (b) ? (a) : (b))
+#define MAX2(a, b) ((a) < (b) ? (b) : (a))
+CgroupContext g_sib; uint64_t g_sib_visits, g_sib_n; int64_t g_sib_acc; _Bool g_children_ok;
+opt_vec_str_t CgroupContext__children(CgroupContext *s, CgroupContext_Error *e) { __CPROVER_assert(s->cgroup_ == (CgroupPath)20, "the PARENT's children are listed"); opt_vec_str_t o; o.has = g_children_ok; __CPROVER_assume(o.val.n <= VEC_MAX); return o; }
+CgroupPath CgroupPath__getChild(CgroupPath p, str_t name) { CgroupPath c; return c; }
+void uset_CgroupPath__insert(uset_CgroupPath s, CgroupPath p) { }
+vec_CgroupContext__ OomdContext__addToCacheAndGet__uset_CgroupPath(OomdContext c, uset_CgroupPath s) { vec_CgroupContext__ v; v.vid = 77; v.n = g_sib_n; return v; }
+/* visiting sibling i: fresh statistics for it; the ledger adds ITS raw protection min(current, max(min, low)) (0 if unavailable) */
+CgroupContext *vecit_CgroupContext____op_deref(vecit_CgroupContext__ it)
+{ __CPROVER_assert(it.i < it.n, "UB: dereference of an end() iterator"); __CPROVER_assert(it.i == g_sib_visits, "each sibling is visited once, in order"); g_sib_visits = g_sib_visits + 1;
+  g_sib_cur = nondet_opt_i64(); g_sib_min = nondet_opt_i64(); g_sib_low = nondet_opt_i64();
+  __CPROVER_assume(BYTES(g_sib_cur) && BYTES(g_sib_min) && BYTES(g_sib_low));
+  CgroupContext_CgroupData fresh; g_sibdata = fresh; g_sibdata.current_usage.has = 0;       /* nothing cached yet for it */
+  g_sib.cgroup_ = SIB; g_sib.data_ = 3;
+  if (HAS(g_sib_cur) && HAS(g_sib_min) && HAS(g_sib_low)) g_sib_acc = g_sib_acc + MIN2(g_sib_cur.val, MAX2(g_sib_min.val, g_sib_low.val));
+  __CPROVER_assume(g_sib_acc <= (1L << 60));      /* ASSUMED: the siblings' protected memory adds up to less than 2^60 bytes */
+  return &g_sib; }
+#define LOOPC_CgroupContext__getMemoryProtection_1 \
+  __CPROVER_assigns(__begin2) \
+  __CPROVER_loop_invariant(__begin2.vid == __end2.vid && __begin2.n == __end2.n && __end2.i == __end2.n && __begin2.i <= __end2.n && ghost_exc == 0) \
+  __CPROVER_decreases(__end2.n - __begin2.i)
+#define LOOPC_CgroupContext__getMemoryProtection_2 \
+  __CPROVER_assigns(__begin1, protection_sum, g_sib_visits, g_sib_acc, g_sib, g_sibdata, g_sib_cur, g_sib_min, g_sib_low) \
+  __CPROVER_loop_invariant(__begin1.vid == __end1.vid && __begin1.n == __end1.n && __end1.i == __end1.n && __begin1.i <= __end1.n && __end1.n == g_sib_n && g_sib_visits == __begin1.i) \
+  __CPROVER_loop_invariant(protection_sum == g_sib_acc && g_sib_acc >= 0 && g_sib_acc <= (1L << 60) && ghost_exc == 0) \
+  __CPROVER_decreases(__end1.n - __begin1.i)
+#define NORM_OF(sum) F2I_i64(F_MUL_d((double)g_raw_expected, ((F_DIV_d(F_MUL_d(1.0, (double)g_par_prot.val), (double)(sum)) < 1.0) ? F_DIV_d(F_MUL_d(1.0, (double)g_par_prot.val), (double)(sum)) : 1.0)))
+#define RAW_HAS (HAS(g_acc_cur) && HAS(g_acc_min) && HAS(g_acc_low))
+opt_int64_t CgroupContext__getMemoryProtection(CgroupContext *self, CgroupContext_Error *err)
+  FN_REQ __CPROVER_requires(CUR_IS_ACC && BYTES(g_par_prot) && g_sib_visits == 0 && g_sib_acc == 0 && g_sib_n <= VEC_MAX && (!g_parent_lookup.has || g_parent_lookup.val == &g_parent) && g_parent.cgroup_ == (CgroupPath)20)
+  __CPROVER_requires(g_raw_expected == RAWEXP)
+  __CPROVER_assigns(g_data.current_usage, g_computes, g_computed, g_sib_visits, g_sib_acc, g_sib, g_sibdata, g_sib_cur, g_sib_min, g_sib_low; err != 0: *err)
+  /* the root is its own usage; a top-level cgroup keeps its raw protection */
+  __CPROVER_ensures(!g_is_root || OPT_I64_EQ(__CPROVER_return_value, g_acc_cur)) /*@C15*/
+  __CPROVER_ensures(g_is_root || !g_parent_is_root || (HAS(__CPROVER_return_value) == RAW_HAS && (!RAW_HAS || __CPROVER_return_value.val == RAWEXP))) /*@C15*/
+  /* below: unavailable without the parent or its children; else R scaled by the parent's protection over the siblings' total R */
+  __CPROVER_ensures(g_is_root || g_parent_is_root || (g_parent_lookup.has && g_children_ok) || !HAS(__CPROVER_return_value)) /*@C15*/
+  __CPROVER_ensures(g_is_root || g_parent_is_root || !(g_parent_lookup.has && g_children_ok) ||
+      (g_sib_visits == g_sib_n &&
+       (g_sib_acc == 0 ? (HAS(__CPROVER_return_value) && __CPROVER_return_value.val == 0)
+                       : ((RAW_HAS && HAS(g_par_prot)) ? (HAS(__CPROVER_return_value) && __CPROVER_return_value.val == NORM_OF(g_sib_acc)) : !HAS(__CPROVER_return_value))))) /*@C15*/
+  __CPROVER_ensures(ghost_exc == 0);
+void h_getMemoryProtection(void) { CgroupContext *s; CgroupContext_Error *e; HAVOC_CC(); HAVOC(g_sib_visits); HAVOC(g_sib_acc); HAVOC(g_sib_n); HAVOC(g_children_ok); HAVOC(g_parent); HAVOC(g_sibdata); HAVOC(g_sib);
+  g_parent.cgroup_ = (CgroupPath)20; g_parent_lookup.val = &g_parent; g_raw_expected = RAWEXP; CgroupContext__getMemoryProtection(s, e); CANARY; }
 void h_refresh(void) { CgroupContext *s; HAVOC_CC(); CgroupContext__refresh(s); CANARY; }
 void h_current_usage(void) { CgroupContext *s; CgroupContext_Error *e; HAVOC_CC(); CgroupContext__current_usage(s, e); CANARY; }
 void h_getAverageUsage(void) { CgroupContext *s; CgroupContext_Error *e; HAVOC_CC(); CgroupContext__getAverageUsage(s, e); CANARY; }
